@@ -146,7 +146,11 @@ def revolve(
     # this covers many cases without having to think too much
     # with a single section of a partial revolution the template
     # indexes one past the end before wrapping is applied below
-    single = single[triangles.area(vertices[single % len(vertices)]) > tol.merge]
+    # compare areas relative to the largest triangle of the slice: an
+    # absolute threshold drops real faces of small shapes and keeps the
+    # slivers of large ones (i.e. `sin(pi) * radius != 0.0`)
+    area = triangles.area(vertices[single % len(vertices)])
+    single = single[area > tol.merge * area.max(initial=0.0)]
 
     # how much to offset each slice
     # note arange multiplied by vertex stride
